@@ -97,3 +97,14 @@ PROPS["C18"] = {
                     "mutated-but-parsable ill-typed text (layer c) is represented by the canary of the open finding only"],
     "sim_time_counter": "inputs",
 }
+
+
+EXEC_RULE = ("a run = one solved generated problem executed tick by tick (units per tick from {1, 1/2, 2, 5/3}) under one seeded heap layout, with a seeded sequence of "
+             "dont_start_yet / dont_end_yet requests (delays 0, 1/2, 1, 3, 10) made inside the starting/ending callbacks, failure() of executing or pending atoms and late goals/facts between ticks; "
+             "faults stop before a final run-out of 12 ticks; non-trivial = at least one injected fault fired and led to an adaptation (re-solve); distinct = distinct hash of (op list, layout, tick unit)")
+PROPS["C19"] = {"engine": "exec", "configs": {"quick": ["dbg"], "thorough": ["dbg", "rel"]}, "budget": {"quick": 45, "thorough": 900},
+                "layouts": {"quick": 2, "thorough": 4}, "run_kv": {"timeout_ms": 4000}, "level": "exploration", "rule": EXEC_RULE,
+                "components": {"real": ["ratio::executor", "solver", "core", "riddle", "smt"], "stub": ["the client (executor_listener implementation)", "the clock (a loop calling tick(); executor/timer.h is not used)"],
+                               "reference": ["dispatch-history invariants X1-X7 over the recorded callbacks", "PLAN's exact solution checker after every adaptation"]},
+                "assumptions": ["LA temporal network only (the executor adapts real-valued start/end/at)", "an execution_exception is a legal outcome and ends the run"],
+                "sim_time_counter": "ticks"}
